@@ -3,6 +3,7 @@ import NauyacaVerif.Srv.ConnProof
 import NauyacaVerif.Srv.PumpProof
 import NauyacaVerif.Srv.PumpSeg
 import NauyacaVerif.Gen.Params
+import NauyacaVerif.Srv.SysSeg
 
 /-! # C07  Outcome is independent of read segmentation; handlers run at most once -/
 namespace NauyacaVerif.C07
@@ -61,4 +62,22 @@ theorem pump_read_merge (cfg : Cfg) (evs : List PEv) (a b : List Item) :
 
 example : ((pumpRead { mw := false, upload := false, handler := .syncRaise, env := asciiEnv } {} [.hs, .hsFinal, .app [103, 13, 10]]).obs).1 = true := by decide +kernel
 example : (([[Item.hs], [.hsFinal, .app [103, 13, 10]]].foldl (pumpRead { mw := false, upload := false, handler := .syncRaise, env := asciiEnv }) {}).obs).1 = true := by decide +kernel
+
+/-! ### the composed machine (M-Sys): the same two statements with the write pump in the picture -/
+
+/-- a run of consecutive reads can be replaced by one read of their concatenation anywhere in any history of reads, ticks,
+    completions, disconnects AND pause / resume signals: the same response is decided, the same bytes have been written, the pump
+    has made the same progress, the handlers were invoked as often -/
+theorem sys_seg_indep (cfg : Srv.Cfg) (dyn : Nat → Srv.Bytes) (pre rest : List Srv.Sys.SEv) (c : Srv.Bytes) (cs : List Srv.Bytes) :
+    Srv.Sys.SEqv (Srv.Sys.srun cfg dyn (pre ++ (c :: cs).map (fun x => Srv.Sys.SEv.conn (.data x)) ++ rest))
+                 (Srv.Sys.srun cfg dyn (pre ++ [Srv.Sys.SEv.conn (.data (c ++ cs.flatten))] ++ rest)) :=
+  Srv.Sys.seg_indep cfg dyn pre rest c cs
+
+/-- bytes arriving after the response was decided (beyond the request line, beyond the declared size, after the answer) change
+    neither the decision nor what the pump does -/
+theorem sys_late_read_noop (cfg : Srv.Cfg) (dyn : Nat → Srv.Bytes) (evs : List Srv.Sys.SEv) (c : Srv.Bytes)
+    (hs : (Srv.Sys.srun cfg dyn evs).conn.sent = true) :
+    (Srv.Sys.sstep cfg dyn (Srv.Sys.srun cfg dyn evs) (.conn (.data c))).flow = (Srv.Sys.srun cfg dyn evs).flow ∧
+    (Srv.Sys.sstep cfg dyn (Srv.Sys.srun cfg dyn evs) (.conn (.data c))).conn.out = (Srv.Sys.srun cfg dyn evs).conn.out :=
+  Srv.Sys.late_read_noop cfg dyn _ (Srv.Sys.srun_j cfg dyn evs) hs c
 end NauyacaVerif.C07
